@@ -9,7 +9,9 @@
                                               and what the framework's own concatenation
                                               (concatStreamReader -> concatMessageArray) of
                                               exactly those chunks returned
-     RConcat  graph tools -> invokable lambda, Stream: the list the lambda received
+     RConcat  graph tools -> invokable lambda, Stream: the list the lambda received; also, one per
+              consumer, the list each of SEVERAL consumers of the node's (copied) stream received:
+              branch condition + selected node + output, two successors, StreamReader.Copy(2)
    plus, per run, the completion order of the tools ([pi], fed to the model as its schedule)
    and the multiset of tool executions (name, args, call id seen by the tool in its ctx, tool
    options the tool was handed).
